@@ -96,6 +96,26 @@ CHECKS = {
         note="modelled not verified: the fork in daemonize (model continues in the grandchild), asynchronous exceptions between finally and fw.done(); that EOF at the helper triggers restoration is property C04.",
         design="DESIGN.md §5 C12",
         technique="Coq proof (trace function over environment scripts, case analysis and induction over the iteration list) + trace differential correspondence"),
+
+    "C05": dict(
+        text=("18 theorems over every 4-/16-byte address, every port < 65536 and both host endiannesses (Props/C05.v): original_dst decodes "
+              "sockaddr_in/sockaddr_in6 to (canonical text, port); tproxy cmsg decoding; parse(format a) = a for the dotted-quad printer and for "
+              "BOTH RFC 5952 printers used (ipaddress.__str__ and inet_ntop), text never contains ','; CONNECT payload and UDP header round trips "
+              "(payload may contain commas); pf query request fits the helper's line reader and the dialogue returns the kernel's destination; "
+              "self-address guard; end-to-end composition: what connect_dst/UdpProxy.send receive equals what the kernel reported. Tied to /repo by "
+              "running the real original_dst, tproxy.recv_udp, onaccept_tcp/onaccept_udp with real Method objects, the server closures and the pf dialogue on fake sockets returning the model's layout bytes."),
+        note="modelled not verified: kernel sockaddr/cmsg layouts (validated against real SO_ORIGINAL_DST / ORIGDSTADDR in a namespace in the thorough tier), glibc inet_ntop/inet_pton, CPython 3.12 ipaddress; ipfw/windivert and scoped IPv6 not covered.",
+        design="DESIGN.md §5 C05",
+        technique="Coq proof (byte-layout codecs, RFC 5952 round trip by reduction to part lists with a symbolic sweep of the 256 zero-group masks) + differential correspondence"),
+    "C15": dict(
+        text=("13 theorems over all configurations and all busy-port environments (Props/C15.v): start-up never ends in an internal error nor a raw "
+              "OSError; every plan is consistent (loopback defaults, listen addresses excluded unless listed, IPv6 entries iff IPv6 active, bound "
+              "listeners on the reported ports, DNS port distinct from the TCP ports, ports <= 65535, user/group/UDP/DNS only when offered); every "
+              "documented method name is accepted (on the regenerated method_choices). The code as found is refuted with witnesses (F1, F2, F11, F14, "
+              "F15, F21: all fixed). Tied to /repo by running the real client.main with real method objects on fake sockets obeying the busy-port set, plus the real option parser and cmdline.main."),
+        note="modelled not verified: bind() only fails with EADDRINUSE per a static busy set; getpwnam/getgrnam/resolv.conf are parameters; argparse dispatch.",
+        design="DESIGN.md §5 C15",
+        technique="Coq proof (total decision function with explicit Crash/OsError constructors proved unreachable; consistency by case analysis over the port search) + exhaustive cross-product correspondence"),
 }
 
 NOT_YET = {}
